@@ -1,6 +1,6 @@
 (* driver.ml — line protocol for the dial model (engine smtpdial: C07, C17, C19).
    input : <id> <kind> <policy> <ssl> <auth> <custom> <host> <nonoop> <mute> <caps> <capstls> <hs> <script> <msgs> [<fallback 0|1> <refused dial attempts>]
-     kind dial|das|sess   policy M|O|N   ssl 0|1   auth/host: hex   custom: - | plain0 | plain1 | login0 | cram | xoauth2
+     kind dial|das|sess|sess2   policy M|O|N   ssl 0|1   auth/host: hex   custom: - | plain0 | plain1 | login0 | cram | xoauth2
      nonoop 0|1   mute: - | n   caps/capstls: hex list   hs: ok|wrongname|untrusted|garbage|stall
      script: - | comma list of ok|drop|stall|<code>|<code>b|<code>e   msgs: - | comma list of recipient counts
    output: <id> <results> closes=<n> open=<0|1> arm=<clear>|<tls> srv=<log>          (ssl = 0, in-memory transport)
@@ -78,7 +78,7 @@ let rec run (toks : string list) : string =
   | [kind; pol; ssl; auth; custom; host; nonoop; mute; caps; capstls; hs; script; msgs] ->
     run [kind; pol; ssl; auth; custom; host; nonoop; mute; caps; capstls; hs; script; msgs; "0"; "0"]
   | [kind; pol; ssl; auth; custom; host; nonoop; mute; caps; capstls; hs; script; msgs; fb; refuse] ->
-    let k = (match kind with "dial" -> M.KDial | "das" -> M.KDas | _ -> M.KSess) in
+    let k = (match kind with "dial" -> M.KDial | "das" -> M.KDas | "sess2" -> M.KSess2 | _ -> M.KSess) in
     let p = (match pol with "M" -> M.Mandatory | "O" -> M.Opportunistic | _ -> M.NoTLS) in
     let cu = (match custom with
         | "plain0" -> Some (M.plain_impl false) | "plain1" -> Some (M.plain_impl true)
